@@ -57,11 +57,16 @@ class Report:
         self.rules: Dict[str, str] = {}
         self.t0 = time.time()
         self.extra: Dict[str, Any] = {}
+        self.structural: set = set()
 
     # ------------------------------------------------------------------
-    def rule(self, rid: str, text: str, floor: int = 1) -> None:
+    def rule(self, rid: str, text: str, floor: int = 1, structural: bool = False) -> None:
+        """structural=True: the rule reads the syntax tree / folded tables only, never interpreted values, so it
+        stays decisive even when the interpreter met values it does not model."""
         self.rules[rid] = text
         self.floors[rid] = floor
+        if structural:
+            self.structural.add(rid)
 
     def ok(self, rule: str, instance: str, where: str, why: str = "", **detail: Any) -> None:
         self.obligations.append(Obligation(rule, instance, where, DISCHARGED, why, "", detail))
@@ -119,6 +124,18 @@ class Report:
                     "-",
                     f"rule matched {counts.get(rid, 0)} instances, expected at least {floor}: the rule lost its subject",
                 )
+        # imprecision policy: while the interpreter's outcomes contain values it has no model for (results of
+        # unknown calls, TOP, ...), a mismatch found by a value-based rule is "cannot decide", not a violation
+        from . import terms as T
+
+        opaque = {m: v for m, v in T.OPAQUE_SEEN.items() if not any(m == b or m.startswith(b) for b in T.OPAQUE_BENIGN)}
+        if opaque:
+            what = "; ".join(f"{m} (in {fn})" for m, (n, fn) in sorted(opaque.items())[:6])
+            for o in self.obligations:
+                if o.verdict == VIOLATED and o.rule not in self.structural:
+                    o.verdict = UNDECIDED
+                    o.why = f"not decided - the analysis met values it does not model [{what}], so this mismatch may be the analyser's, not the code's. Finding as derived: {o.why}"
+            self.notes.append(f"opaque values in analysed outcomes: {what}")
         known = load_known()
         viol = [o for o in self.obligations if o.verdict == VIOLATED]
         und = [o for o in self.obligations if o.verdict == UNDECIDED]
